@@ -123,5 +123,25 @@ Definition op_ok (l : list pev) : bool :=
   let a := last_attempt l in
   loads_covered ([], allocs l) a && coupled a && match held_at_end l with [] => true | _ => false end && versions_own [] l.
 
-(** scans: the iterator's saved versions *)
-Definition scan_ok (l : list pev) : bool := versions_own [] l.
+(** scans: the iterator's saved versions (R4), and R1 for scans: every field
+    load from a node is followed, later in the same scan, by a SUCCESSFUL
+    validation of that node (check / read-unlock / upgrade) - or by a failed
+    validation somewhere (the iterator step is abandoned and re-done: its reads
+    are discarded).  In an execution without any failed validation every load
+    of the scan must therefore be validated on its own node. *)
+Definition is_failure (e : pev) : bool :=
+  match e with
+  | PCheck _ false _ | PUpgrade _ false _ => true
+  | PRLock _ false w => Z.eqb w 1      (* obsolete: must_restart; a write-locked word is a wait, not a failure *)
+  | _ => false
+  end.
+Fixpoint scan_loads_covered (l : list pev) : bool :=
+  match l with
+  | [] => true
+  | e :: l' =>
+      match e with
+      | PLoad n => existsb (fun x => validates n x || is_failure x) l'
+      | _ => true
+      end && scan_loads_covered l'
+  end.
+Definition scan_ok (l : list pev) : bool := versions_own [] l && scan_loads_covered l.
